@@ -20,7 +20,7 @@ PARAMS = {
     'C03': dict(q=(24, 10), t=(400, 30), h=dict(p_full=0.3, p_other=0.2), c=dict(), lens=[5, 15, 40, 60], extra=[2, 9, 16, 33, 64, 120]),
     'C04': dict(q=(24, 8), t=(400, 24), h=dict(p_full=0.25, p_other=0.2), c=dict(), lens=[10, 30, 60], extra=[4, 16, 40, 90]),
     'C05': dict(q=(24, 8), t=(400, 24), h=dict(p_full=0.25, p_other=0.2), c=dict(clock_p=1.0), lens=[10, 30, 60], extra=[0, 8, 24, 60, 100]),
-    'C06': dict(q=(20, 10), t=(300, 30), h=dict(p_full=0.3, p_other=0.45, p_swap=0.15, p_toggle=0.0), c=dict(), lens=[6, 20, 50], extra=[0, 8, 30, 64]),
+    'C06': dict(q=(20, 10), t=(300, 30), h=dict(p_full=0.3, p_other=0.45, p_swap=0.15, p_toggle=0.0, p_same_addr=0.5), c=dict(), lens=[6, 20, 50], extra=[0, 8, 30, 64]),
     'C07': dict(q=(20, 10), t=(300, 30), h=dict(p_full=0.2, p_other=0.4, p_toggle=0.25), c=dict(), lens=[8, 20, 40], extra=[4, 20, 64]),
     'C16': dict(q=(20, 8), t=(300, 24), h=dict(p_full=0.3, p_other=0.35, p_toggle=0.15, p_swap=0.1), c=dict(), lens=[8, 20, 40], extra=[0, 12, 40]),
 }
@@ -46,6 +46,8 @@ def run_one_config(args):
         if err:
             res['error'] = ('build', err)
             return res
+        if pid in ('C02', 'C03'):
+            res['probes'], res['probe_error'] = tc.probe_sizes(cfg, s, d, rng)
         impl = tc.run_impl(exe, len(hists))
         evs = [tc.split_events(t) for t, _ in impl]
         packets = [tc.packets_of(e) for e in evs]
@@ -66,9 +68,114 @@ def run_one_config(args):
             res['error'] = ('model', raw[-1500:])
             return res
         res.update(impl=impl, events=evs, model=logs, decoded=dec)
+        if pid == 'C07':
+            res['atomic'] = atomicity_runs(cfg, s, hists, evs, impl, d)
         return res
     finally:
         shutil.rmtree(d, ignore_errors=True)
+
+
+def atomic_variant(s, h, events):
+    """The same history with every toggle performed by a callback DURING a tracing call (after its
+    entry clock sample) erased and replayed right after the call returns.  If tracing calls are
+    atomic w.r.t. the switch, both histories produce the same packets and the same context after
+    every original call."""
+    oracle = list(h['oracle'])
+    calls, mapping, oi, changed = [], [], 0, False
+    groups = [(call, evs) for call, evs, _, _ in walk_calls(h, events)]
+    nret = len(groups)
+    if nret < len(h['calls']):
+        # the run died inside call number nret: its callbacks are the events after the last dump
+        tail, seen = [], 0
+        for e in events:
+            if e[0] == 3:
+                seen += 1
+            elif seen == nret:
+                tail.append(e)
+        groups.append((h['calls'][nret], tail))
+    for call, evs in groups:
+        idx = []
+        for e in evs:
+            if e[0] == 1:
+                idx.append((oi, e[1]))
+                oi += 1
+        calls.append(call)
+        mapping.append(len(calls) - 1)
+        if call[0] != 'trace':
+            continue
+        inner = idx[1:] if (s['clock'] is not None and idx and idx[0][1] == 3) else idx
+        last = None
+        for i, kind in inner:
+            if i < len(oracle) and oracle[i][1] is not None:
+                last = oracle[i][1]
+                oracle[i] = (oracle[i][0], None, oracle[i][2], oracle[i][3])
+                changed = True
+        if last is not None:
+            calls.append(('enable', last))
+    calls += h['calls'][len(groups):]
+    if not changed:
+        return None
+    return {'calls': calls, 'oracle': oracle, 'pcargs': h['pcargs'], 'buf': h['buf'], 'same_addr': h.get('same_addr')}, mapping
+
+
+def atomicity_runs(cfg, s, hists, evs, impl, workdir):
+    variants = []
+    for hi, h in enumerate(hists):
+        v = atomic_variant(s, h, evs[hi])
+        if v is not None:
+            variants.append((hi, v[0], v[1]))
+    if not variants:
+        return []
+    d2 = os.path.join(workdir, 'atomic')
+    os.makedirs(d2)
+    exe, err, _ = tc.build_impl(cfg, s, [v[1] for v in variants], d2)
+    if err:
+        return [('error', err)]
+    out = tc.run_impl(exe, len(variants))
+    res = []
+    for (hi, vh, mapping), (toks, verr) in zip(variants, out):
+        res.append((hi, vh, mapping, tc.split_events(toks), verr))
+    return res
+
+
+def oracle_atomic(ctx, r, stats):
+    cfg, s = r['cfg'], r['s']
+    for item in r.get('atomic') or []:
+        if item[0] == 'error':
+            ctx.corr_broken.append('atomicity variant does not build: %s' % item[1][-200:])
+            continue
+        hi, vh, mapping, vevents, verr = item
+        h = r['hists'][hi]
+        stats['atomicity_pairs'] += 1
+        rep = {'config_seed': r['seed'], 'history': hi, 'config': cfg_repr(cfg), 'calls': h['calls'], 'oracle': h['oracle'][:60],
+               'buf_bytes': h['buf'], 'variant_calls': vh['calls'], 'variant_oracle': vh['oracle'][:60], 'variant_error': verr}
+        orig_rets = [e for e in r['events'][hi] if e[0] == 3]
+        var_rets = [e for e in vevents if e[0] == 3]
+        orig_pk = [e for e in r['events'][hi] if e[0] == 2]
+        var_pk = [e for e in vevents if e[0] == 2]
+        bad = None
+        oerr = r['impl'][hi][1]
+        if oerr is not None or verr is not None:
+            if (oerr is None) != (verr is None):
+                bad = ('with the toggles inside the tracing calls the run %s, with the same toggles deferred to the end of each call it %s' % (
+                    'fails: %r' % (oerr,) if oerr else 'is clean', 'fails: %r' % (verr,) if verr else 'is clean'))
+            else:
+                continue          # both fail (e.g. the known findings S9 / S18): nothing to compare
+        elif orig_pk != var_pk:
+            k = next((i for i, (a, b) in enumerate(zip(orig_pk, var_pk)) if a != b), min(len(orig_pk), len(var_pk)))
+            bad = 'packet #%d differs between the history with toggles inside tracing calls and the one with the toggles deferred' % k
+        else:
+            for ci, vi in enumerate(mapping):
+                if ci >= len(orig_rets) or vi >= len(var_rets):
+                    break
+                a, b = list(orig_rets[ci]), list(var_rets[vi])
+                a[9] = b[9] = 0       # is_tracing_enabled itself changes later in the variant
+                if a != b:
+                    bad = 'context after call %d differs (%r vs %r)' % (ci, orig_rets[ci][1:11], var_rets[vi][1:11])
+                    break
+        if bad:
+            ctx.violation('C07: a tracing call is not atomic with respect to the tracing switch: ' + bad, rep)
+            return
 
 
 def classify_memory_error(cfg, s, h, events):
@@ -128,6 +235,11 @@ def compare_model(ctx, r, hi, stats):
     if err is not None and mev and mev[-1][0] == 4 and mev[:-1] == iev[:len(mev) - 1]:
         stats['agree_on_error'] += 1
         return 'memerr'
+    if err is None and r['hists'][hi].get('same_addr') and mev and mev[-1][0] == 4 and mev[:-1] == iev[:len(mev) - 1]:
+        # same-address buffer swaps use one big backing block: a store beyond the installed size is
+        # not visible to AddressSanitizer there; the model says where it happens
+        stats['agree_on_error_same_addr_silent'] += 1
+        return 'memerr-silent'
     stats['diff'] += 1
     k = next((i for i, (a, b) in enumerate(zip(iev, mev)) if a != b), min(len(iev), len(mev)))
     ctx.corr_broken.append('tracer model vs compiled tracer: config seed %d history %d differs at event %d' % (r['seed'], hi, k))
@@ -365,13 +477,19 @@ def oracle_protocol(ctx, r, hi, stats):
     events = r['events'][hi]
     rep = {'config_seed': r['seed'], 'history': hi, 'config': cfg_repr(cfg), 'calls': h['calls'], 'oracle': h['oracle'][:60], 'buf_bytes': h['buf']}
     npackets, oi = 0, 0
+    installed = h['buf']          # bytes of the buffer last installed (init or packet_set_buf)
     for call, evs, before, after in walk_calls(h, events):
         is_open = before[7] == 1 if before is not None else False
         last_full = None
-        for e in evs:
+        for ei, e in enumerate(evs):
             if e[0] == 1:
                 a = h['oracle'][oi] if oi < len(h['oracle']) else (False, None, None, 1)
                 oi += 1
+                if e[1] == 2 and a[2] is not None and any(x[0] == 2 for x in evs[ei + 1:ei + 4] if x[0] != 1 or x[1] == 3):
+                    # the closing callback handed a packet over and then installed another buffer
+                    nxt = [x for x in evs[ei + 1:] if not (x[0] == 1 and x[1] == 3)]
+                    if nxt and nxt[0][0] == 2:
+                        installed = a[2]
                 if call[0] == 'trace':
                     if e[1] == 0:
                         last_full = a[0]
@@ -394,6 +512,9 @@ def oracle_protocol(ctx, r, hi, stats):
         stats['calls_checked'] += 1
         # accessors
         at, psize, off, disc, seq, opn = after[1], after[2], after[4], after[5], after[6], after[7]
+        if psize != 8 * installed:
+            ctx.violation('C06: packet size accessor says %d bits, the buffer last installed has %d bytes' % (psize, installed), rep)
+            return
         if s['pf']['seq'] and seq != npackets and not has_toggles(h):
             # a close callback on a closed packet still prints a packet in the harness platform
             pass
@@ -531,11 +652,33 @@ def campaign(ctx, pid):
             ctx.corr_broken.append('model of the TSDL generator (tstream_of_dst) differs from the parsed real metadata: config seed %d' % r['seed'])
         else:
             stats['tsdl_agree'] += 1
+        if pid in ('C02', 'C03'):
+            if r.get('probes') is None:
+                ctx.corr_broken.append('config seed %d: %s' % (r['seed'], r.get('probe_error')))
+            else:
+                for pr in r['probes']:
+                    stats['size_probes'] += 1
+                    if pr['impl'] == pr['expected']:
+                        continue
+                    stats['size_probe_mismatches'] += 1
+                    rep = {'config_seed': r['seed'], 'config': cfg_repr(cfg), 'stream': s['name'], 'event_record_type_index': pr['ert'],
+                           'position_bits': pr['at'], 'argument_values': pr['vals'], 'size_function_returns': pr['impl'],
+                           'bits_occupied_when_serialized_there': pr['expected']}
+                    if stats['size_probe_mismatches'] <= 3:
+                        if pr['impl'] < pr['expected'] and pid == 'C02':
+                            ctx.violation('C02: the generated size function returns %d bits for a record that occupies %d bits when serialized '
+                                          'from the same position (bit %d): the fit test accepts a record that is then written past the reserved space' % (
+                                              pr['impl'], pr['expected'], pr['at']), rep)
+                        elif pid == 'C03':
+                            ctx.violation('C03: the generated size function returns %d bits for a record that occupies %d bits (position %d): records are '
+                                          'discarded / accepted against the wrong size' % (pr['impl'], pr['expected'], pr['at']), rep)
         for hi, h in enumerate(r['hists']):
             stats['histories'] += 1
             stats['calls'] += len(h['calls'])
             verdict = compare_model(ctx, r, hi, stats)
             toks, err = r['impl'][hi]
+            if verdict == 'memerr-silent':
+                continue
             if err is not None:
                 stats['histories_with_memory_error'] += 1
                 cls = classify_memory_error(cfg, s, h, r['events'][hi])
@@ -563,6 +706,10 @@ def campaign(ctx, pid):
             if len(samples) < 4 and hi == 0:
                 samples.append({'config': cfg_repr(cfg), 'stream': s['name'], 'buf_bytes': h['buf'], 'calls': h['calls'][:6],
                                 'oracle': h['oracle'][:6], 'impl_log_head': list(toks[:40])})
+    if pid == 'C07':
+        for r in results:
+            if not r['error']:
+                oracle_atomic(ctx, r, stats)
     distinct = len({repr((cfg_repr(r['cfg']), h['calls'], h['oracle'][:20], h['buf'])) for r in results if not r['error'] for h in r['hists']})
     ctx.cov.update({
         'evaluations': stats['histories'],
